@@ -264,4 +264,18 @@ theorem C04_wiring :
     Sso.Generated.skel_sso_redeemRefreshToken =
       ["call:Add", "call:Add", "call:Add", "call:String", "call:Encode", "call:NewBufferString", "call:newRequest", "if{", "return", "}", "call:Set", "call:Do", "if{", "return", "}", "call:ReadAll", "call:Close", "if{", "return", "}", "if{", "call:isProviderUnavailable", "if{", "}", "else{", "if{", "}", "else{", "call:String", "call:Errorf", "}", "}", "return", "}", "call:Unmarshal", "if{", "return", "}", "call:Duration", "return"] := by decide
 
+/-- Tie (T1), second wave: helpers, stores and second callers on this property's path (sessions_LifetimePeriodExpired, sessions_RefreshPeriodExpired, sessions_ValidationPeriodExpired, store_SaveSession, sso_UserGroups) — call/branch/store skeletons
+regenerated from the source on every run against the expectations frozen here. -/
+theorem C04_wiring2 :
+    Sso.Generated.skel_sessions_LifetimePeriodExpired =
+      ["call:isExpired", "return"] ∧
+    Sso.Generated.skel_sessions_RefreshPeriodExpired =
+      ["call:isExpired", "return"] ∧
+    Sso.Generated.skel_sessions_ValidationPeriodExpired =
+      ["call:isExpired", "return"] ∧
+    Sso.Generated.skel_store_SaveSession =
+      ["call:MarshalSession", "if{", "return", "}", "call:setSessionCookie", "return"] ∧
+    Sso.Generated.skel_sso_UserGroups =
+      ["call:Add", "call:Add", "call:Join", "call:Add", "call:String", "call:Encode", "call:Sprintf", "call:newRequest", "if{", "return", "}", "call:Set", "call:Set", "call:Do", "if{", "return", "}", "call:ReadAll", "call:Close", "if{", "return", "}", "if{", "call:isProviderUnavailable", "if{", "return", "}", "call:String", "call:Errorf", "return", "}", "call:Unmarshal", "if{", "return", "}", "return"] := by decide
+
 end Sso.Proxy
